@@ -61,7 +61,18 @@ impl GenParams {
 }
 
 pub fn gen_params(rng: &mut Rng, tier: Tier) -> GenParams {
+    // a quarter of the scenarios: small shapes and row counts on / next to the word and SIMD-block boundaries
+    // (64-bit words, 256-bit blocks of the bit vectors)
+    let boundary = rng.below(4) == 0;
     let rows = match (tier, rng.below(4)) {
+        _ if boundary => {
+            if rng.chance(0.35) {
+                rng.range(100, 300)
+            } else {
+                let b = *rng.pick(&[128u64, 192, 256, 256, 256, 320, 384, 512, 512, 768, 1024, 1280, 2048]);
+                (b as i64 + *rng.pick(&[0i64, 0, 0, -1, 1])) as u64
+            }
+        }
         (_, 0) => rng.range(300, 700),
         (_, 1) => rng.range(700, 1500),
         (Tier::Quick, _) => rng.range(1000, 2500),
@@ -332,7 +343,7 @@ impl Family for LanczosFamily {
     fn rule(&self, _prop: &str, tier: Tier) -> String {
         format!(
             "family lanczos/C14/{}: base scenario i = GF(2) matrix with the density profile of sieve matrices (dense first 32-100 rows, sparse tail) or uniform, \
-             300..{} rows, 0-100 extra columns, planted dependencies, duplicate and zero columns, regenerated exactly from its seed; for each matrix {} runs of \
+             100..{} rows (a quarter of the scenarios: 100-300 rows, or a row count on / next to a 64-bit word or 256-bit block boundary: 128, 192, 256, 320, 384, 512, 768, 1024, 1280, 2048, +-1), 0-100 extra columns, planted dependencies, duplicate and zero columns, regenerated exactly from its seed; for each matrix {} runs of \
              kernel_lanczos, each with its own stream for the rand::thread_rng seam: fair, or biased for a prefix of the draws (low Hamming weight, repeated words, \
              zeroed lanes), or all-zero (cut off by the seam's draw budget and discarded). Every returned vector is checked non-zero and M*v = 0 with the harness' own xor of columns. \
              kernel_gauss runs on matrices up to 1200 columns as reference (independent family of size columns - rank, rank by the harness' own elimination). \
